@@ -140,6 +140,17 @@ func cliCases(r *rand.Rand, tier string) []string {
 		cfg3["pools"].([]any)[0].(map[string]any)["gun"].(map[string]any)["max-idle-conns"] = math.MaxInt64
 		out = append(out, cliLine("number", "/pools[0]/gun/max-idle-conns=maxint64", "accept", cfg3, false))
 	}
+	// a key that is no string, as a YAML file can have it
+	{
+		cfg := cfgOf("absent")
+		gun := cfg["pools"].([]any)[0].(map[string]any)["gun"].(map[string]any)
+		ik := map[any]any{5: "x"}
+		for k, v := range gun {
+			ik[k] = v
+		}
+		cfg["pools"].([]any)[0].(map[string]any)["gun"] = ik
+		out = append(out, cliLine("intkey", "/pools[0]/gun/5", "reject", cfg, false))
+	}
 	// placeholders through the CLI reader
 	{
 		cfg := cfgOf("absent")
